@@ -413,6 +413,13 @@ func c07Pair(c *fw.Ctx, r *rng.R, a, b *spec.Spec, desc string) {
 			ba = equalsOf(rb, ra)
 			aa = equalsOf(ra, ra)
 			bb = equalsOf(rb, rb)
+			for rep := 0; rep < 3; rep++ {
+				// objects are compared in map iteration order, which differs from call to call: the verdict must not
+				if equalsOf(ra, rb) != ab || equalsOf(rb, ra) != ba {
+					ab, ba = !want, !want
+					c.Count("verdict_changes_between_calls")
+				}
+			}
 		}); p {
 			c.Violate("equals-panics", in(), "true/false", "panic: "+msg)
 			return
